@@ -20,6 +20,12 @@ def small(x: int) -> tuple:
     return (x, x * x, "p" * (5 + x % 7), [x / 3.0, x / 7.0])
 
 
+def small_alt(x: int) -> tuple:
+    """Another computation over the same keys (what a changed model / function gives)."""
+    _log(x)
+    return (x, x * x * x, "q" * (3 + x % 5), [x / 2.0, x / 5.0, 1.0])
+
+
 def medium(x: int) -> dict:
     _log(x)
     return {"key": x, "data": [float(i * x) for i in range(300)], "text": "t" * 200}
